@@ -167,6 +167,25 @@ def run(F, res, tier):
     res.ob("R4", "references/sets-keyed-by-file", "a set that decides whether a found occurrence is listed by `references` is keyed by the file as "
            "well as the range (the same range in two files is two references)", not narrow, where=F.fn(rf).loc(),
            how="set element types: %s" % sorted(elems))
+    # the same for a key function: `unique_by(|r| r.range)` / `dedup_by_key(..)` keep one of two references that share a range in two files
+    keyed = []
+    for q in [rf] + list(F.closures_of(rf)):
+        g = F.fns[q]
+        dg = FL.Defs(g)
+        for _b, t in g.calls():
+            nm = FL.short(callee(t) or callee_def(t) or "").rsplit("::", 1)[-1]
+            if nm not in ("unique_by", "dedup_by_key", "dedup_by", "sorted_unstable_by_key", "group_by", "chunk_by", "into_group_map_by", "min_set_by_key", "max_set_by_key"):
+                continue
+            for a in t["args"][1:]:
+                oa = dg.origin_op(a) if isinstance(a, dict) and "k" not in a else {}
+                if oa.get("k") == "agg" and oa["rv"].get("closure") in F.fns:
+                    kt = str(F.fns[oa["rv"]["closure"]].local_ty(0) or "")
+                    if nm in ("unique_by", "dedup_by_key") and "FileRange" not in kt and "FileId" not in kt:
+                        keyed.append("%s keyed by %s (line %s)" % (nm, kt, t["ln"]))
+                    elif nm == "dedup_by":
+                        keyed.append("%s (line %s): a hand-written sameness test" % (nm, t["ln"]))
+    res.ob("R4", "references/dedup-keyed-by-file", "a deduplication of the references by a key function keeps the file in the key", not keyed,
+           where=F.fn(rf).loc(), how="no key function that drops the file" if not keyed else "; ".join(keyed))
     highlight_current_file(F, res, "R4")
     # the set of highlight_related merges two entries only if they are equal as a whole: whatever an entry carries besides its
     # range must be the same for all of them, or one range can be listed twice
